@@ -287,8 +287,9 @@ def run(ctx):
     c10.VARIANT, c10.PID = "san", "C11"
     eng.so_path("san")
     eng.so_path("plain")
-    hjobs, subs = c10.build_jobs(ctx.tier, ctx.seed, d1=4 if ctx.tier == "quick" else 6, d2=3 if ctx.tier == "quick" else 5,
-                                 dlm=4 if ctx.tier == "quick" else 5)
+    # the sanitized build costs 5-10x the plain one: the lifecycle sub-spaces are explored one level less deep than in C10
+    hjobs, subs = c10.build_jobs(ctx.tier, ctx.seed, d1=4 if ctx.tier == "quick" else 5, d2=3 if ctx.tier == "quick" else 4,
+                                 dlm=4 if ctx.tier == "quick" else 5, light=True)
     sc = list(shape_cases(ctx.tier, ctx.seed)) + list(bignet_cases(ctx.tier, ctx.seed)) + list(pinned_cases())
     _JOBS = [("shape", c) for c in sc] + hjobs
     ctx.sample(sc[len(sc) // 2])
